@@ -46,7 +46,7 @@ Lemma trim_mid f pre mid post :
   all_b f pre -> all_b f post -> mid <> [] -> hd_not f mid -> hd_not f (rev mid) ->
   trim f (pre ++ mid ++ post) = mid.
 Proof.
-  intros Hpre Hpost Hne Hh Hl. unfold trim.
+  intros Hpre Hpost Hne Hh Hl. unfold trim, frev. rewrite <- !rev_alt.
   rewrite (trim_left_app f pre (mid ++ post) Hpre).
   2:{ destruct mid as [|c m]; [congruence|]. exact Hh. }
   rewrite rev_app_distr.
